@@ -81,6 +81,17 @@ def cases(draw):
         w["kind"] = "world"
         w["ref_siblings"] = draw(st.booleans())
         w["insert"] = draw(insertions(w["draft"], w["ref_siblings"]))
+        # annotation / unknown-keyword values that merely CONTAIN something looking like an identified schema:
+        # {"$id": <a URI some reference of this world names>, ...}
+        uris = sorted(set(list(w["docs"]) + ["http://ex.test/missing.json"]))
+        if draw(st.booleans()):
+            u = draw(st.sampled_from(uris))
+            decoy = {draw(st.sampled_from(["$id", "id"])): u, "type": "null", "definitions": {"a": False}}
+            w["insert"].append({"pos": draw(st.integers(0, 50)), "name": draw(st.sampled_from(["examples", "default", "x-data", "definitions"])),
+                                "value": draw(st.sampled_from([decoy, [decoy], {"a": decoy}])), "kind": "id-decoy",
+                                "front": draw(st.booleans())})
+        # and the other family's id keyword inside a retrievable document, naming ANOTHER document's URL
+        w["doc_foreign_id"] = draw(st.booleans())
         return w
     d = draw(st.sampled_from(impl.DRAFTS))
     s = draw(GS.root_schemas(d, 8))
@@ -147,10 +158,12 @@ class C10(Prop):
     def strategy(self, tier):
         return cases()
 
-    def run(self, cls, schema, x, case):
+    def run(self, cls, schema, x, case, after=False):
         try:
             if case.get("kind") == "world":
                 c2 = dict(case, root=schema)
+                if after and case.get("docs_after"):
+                    c2["docs"] = case["docs_after"]
                 v = GW.build_validator(c2)
             else:
                 v = cls(schema)
@@ -177,6 +190,15 @@ class C10(Prop):
                 return res
             base = case["root"]
             s2, applied = apply_insertions(d, base, ins, True, only_ref_objects=bool(case.get("ref_siblings")))
+            if case.get("doc_foreign_id") and len(case["docs"]) >= 2:
+                other = "$id" if d <= 4 else "id"
+                us = sorted(case["docs"])
+                docs2 = copy.deepcopy(case["docs"])
+                if isinstance(docs2[us[0]], dict) and other not in docs2[us[0]]:
+                    docs2[us[0]][other] = us[1]
+                    case = dict(case, docs_after=docs2)
+                    applied += 1
+                    res.labels.append("foreign-id-in-document")
             if case.get("ref_siblings") and applied:
                 res.labels.append("next-to-ref")
             xs = case["instances"]
@@ -204,7 +226,7 @@ class C10(Prop):
         for x in xs:
             res.evals += 1
             a, ea = self.run(cls, base, x, case)
-            b, eb = self.run(cls, s2, x, case)
+            b, eb = self.run(cls, s2, x, case, after=True)
             if ea == "RecursionError" or eb == "RecursionError":
                 res.excluded = "non-terminating"
                 continue
